@@ -4,6 +4,7 @@ import numpy as _np
 
 import autograd.builtins as builtins
 from autograd.extend import notrace_primitive, primitive
+from autograd.tracer import getval
 
 if _np.lib.NumpyVersion(_np.__version__) >= "2.0.0":
     from numpy._core.einsumfunc import _parse_einsum_input
@@ -94,7 +95,16 @@ def array_from_args(array_args, array_kwargs, *args):
 
 def select(condlist, choicelist, default=0):
     raw_array = _np.select(list(condlist), list(choicelist), default=default)
-    return array(list(raw_array.ravel())).reshape(raw_array.shape)
+    result = array(list(raw_array.ravel())).reshape(raw_array.shape)
+    if raw_array.dtype == object:
+        # The result was assembled from the selected entries only. NumPy's has the common type of all
+        # the choices and the default, also where none of them (or only the integer default) is selected.
+        plain = _np.select(
+            [getval(c) for c in condlist], [getval(c) for c in choicelist], default=getval(default)
+        )
+        if plain.dtype != object and result.dtype != plain.dtype:
+            result = result.astype(plain.dtype)
+    return result
 
 
 def stack(arrays, axis=0):
